@@ -333,6 +333,14 @@ func raceChildMain(args []string) int {
 	known := LoadKnown(filepath.Join(verifDir, "known_findings.json"))
 	for round := 0; time.Now().Before(deadline); round++ {
 		s := GenerateScript(*seed*7919+uint64(round), "C09", "quick", env)
+		// the query goroutines hold on to the reference replica's application: no restarts of it here
+		kept := s.Steps[:0]
+		for _, st := range s.Steps {
+			if st.K != "restart0" {
+				kept = append(kept, st)
+			}
+		}
+		s.Steps = kept
 		s.Config.Replicas = s.Config.Replicas[:1]
 		s.Config.CrashEnum = 0
 		var steps []Step
